@@ -398,6 +398,10 @@ def walk_rule(repo, res, tier, rule="SK-WALK", report_leniency=True):
             # guarded by the transition existing from this state
             okv = any(n.kind == "cond" and any(t[0] == "un" and t[1] == "-v" and "state_transitions[$literal_id]" in t[2] for t in n.tests) for n, *_ in B.walk(blk))
             rec("W5:literal-needs-transition", okv, "a literal is taken only if the current state has a transition on it", blk.line)
+            # the scan over literal ids ends only by taking a transition: the same text can sit under several ids (one per
+            # description), so a `break` / `return` on a text match without a transition hides the occurrence that has one
+            exits = [n for n, loops, conds, f in B.walk(blk, (wl,)) if n.kind == "simple" and n.words and ((n.words[0] == "break") or (n.words[0] == "return") or (n.words[0] == "continue" and loop_target(loops, n.words) is not wl))]
+            rec("W5:scan-ends-only-by-transition", not exits, "the literal scan has no exit other than `continue <walk>` after a transition" if not exits else f"`{' '.join(exits[0].words)}` leaves the literal scan early: a later id with the same text and a transition from this state is never tried", exits[0].line if exits else blk.line)
     for k, (ok, why, line) in sorted(agg.items()):
         res.check(ok, rule, k, why, f"bash skeleton line {line}")
 
@@ -917,3 +921,99 @@ def subacc_rule(repo, res, tier, rule="SK-SUBACC"):
                     ok = True
                     why = "matched=1 at the end of the word is conditioned on the reached state being in an accepting-state table"
     res.check(ok, rule, f"{rule}:matches-requires-accepting-state", why + ("" if ok else f" (tables the wrappers define: {sorted(defined)}; none lists accepting states): a proper prefix of a legal word that ends between two literals is accepted as a complete word"), f"bash skeleton line {sub.line}")
+
+
+# ------------------------------------------------------------------ SK-SCOPE (C01): a callee must not clobber the caller's loop variables
+def scope_rule(repo, res, tier, rule="SK-SCOPE"):
+    """bash scoping is dynamic: a variable that a function assigns without declaring it `local` IS the caller's variable of that
+    name.  For every function G of the skeleton and every loop of G that encloses a call of another skeleton function F (directly, or
+    through the generated wrappers): the loop's variable (the `for` variable, the counter of a `for (( ))`) must not be assigned in F
+    (or in anything F calls) outside a `local` declaration of F.  Otherwise the callee moves the caller's loop on: e.g. the
+    within-word completer advancing the caller's fallback-level counter skips a `||` level."""
+    names, sets = flag_sets(repo, tier)
+    agg = {}
+
+    def rec(key, ok, why, line):
+        k = f"{rule}:{key}"
+        if k not in agg or (agg[k][0] and not ok):
+            agg[k] = (ok, why, line)
+
+    for flags in sets:
+        text, tree, funcs, _ = skeleton(repo, flags)
+        fnames = set(funcs)
+
+        def norm(n):
+            return re.sub(r"H__\w+?__H", "N", n)
+
+        nfuncs = {}
+        for k, v in funcs.items():
+            nfuncs.setdefault(norm(k), []).extend(v)
+
+        def callee_of(word):
+            w = norm(re.sub(r'"?\$\{?\w+\}?"?$', "N", word))
+            for k in nfuncs:
+                if k == w or k == norm(word):
+                    return k
+            return None
+
+        # per function: names assigned non-locally, and callees
+        info = {}
+        for k, defs in nfuncs.items():
+            assigned, local, calls = set(), set(), set()
+            for d in defs:
+                for n, loops, conds, f in B.walk(d):
+                    if n.kind == "simple" and n.words:
+                        if n.words[0] in B.DECL_CMDS:
+                            for a in B.assignments(n):
+                                local.add(a[0])
+                        elif n.words[0] == "eval":
+                            m = re.match(r'^"?local(?:\s+-\w+)*\s+(\w+)=', " ".join(n.words[1:]))
+                            if m:
+                                local.add(m.group(1))
+                        else:
+                            for a in B.assignments(n):
+                                assigned.add(a[0])
+                            c = callee_of(n.words[0])
+                            if c and c != k:
+                                calls.add(c)
+                        if n.words[0] in ("readarray", "mapfile", "read"):
+                            for w in n.words[1:]:
+                                if re.match(r"^[A-Za-z_]\w*$", w):
+                                    assigned.add(w)
+                    elif n.kind == "for":
+                        assigned.add(n.var)
+                    elif n.kind == "forarith":
+                        m = re.match(r"^\s*(\w+)\s*=", n.parts[0] if n.parts else "")
+                        if m:
+                            assigned.add(m.group(1))
+            info[k] = (assigned - local, calls)
+
+        def leaked(k, seen=()):
+            if k in seen or k not in info:
+                return set()
+            out = set(info[k][0])
+            for c in info[k][1]:
+                out |= leaked(c, seen + (k,))
+            return out
+
+        for k, defs in nfuncs.items():
+            for d in defs:
+                for n, loops, conds, f in B.walk(d):
+                    if n.kind == "simple" and n.words and loops:
+                        c = callee_of(n.words[0])
+                        if not c or c == k:
+                            continue
+                        lvars = set()
+                        for l in loops:
+                            if l.kind == "for":
+                                lvars.add(l.var)
+                            elif l.kind == "forarith":
+                                for part in l.parts:
+                                    for v in re.findall(r"\b([A-Za-z_]\w*)\b", part):
+                                        lvars.add(v)
+                        clob = sorted(lvars & leaked(c))
+                        rec(f"{k}->{c}", not clob, (f"the loops around the call use {sorted(lvars)}; the callee assigns none of them non-locally" if not clob else
+                            f"the callee (or what it calls) assigns {clob} without `local`: with bash's dynamic scoping that is the loop variable of the caller's enclosing loop, which the call therefore moves on"), n.line)
+    for k, (ok, why, line) in sorted(agg.items()):
+        res.check(ok, rule, k, why, f"bash skeleton line {line}")
+    res.floor(rule, len(agg), 2)
